@@ -222,7 +222,7 @@ func init() {
 			}
 			e.set(lf, ph, nv)
 		case *SliceV:
-			e.set(lf, ph, &SliceV{Base: x.Base, Str: x.Str, IsStr: x.IsStr, Off: x.Off, Len: nv, Cap: x.Cap})
+			e.set(lf, ph, &SliceV{Base: x.Base, Str: x.Str, IsStr: x.IsStr, Alias: x.Alias, Off: x.Off, Len: nv, Cap: x.Cap})
 		default:
 			e.errf("LoopSetInt: phi %s is %T", ph.Comment, old)
 		}
